@@ -67,25 +67,65 @@ func readConfigFile(config_file string) string {
 		log.Fatalf("Couldn't read config file %q: %s", config_file, err.Error())
 	}
 
-	return os.Expand(string(data), expandVars)
+	return expandConfig(string(data))
 
 }
 
-func expandVars(in string) (out string) {
+// expandConfig substitutes $NAME and ${NAME} for the variables known to expandVars.
+// Every other '$' sequence, such as the $1 and ${1} group references used in
+// rewriter and aggregation templates, is left exactly as it is.
+// (os.Expand can't be used for this: it strips the braces from names it doesn't expand)
+func expandConfig(in string) string {
+	var out strings.Builder
+	for i := 0; i < len(in); {
+		if in[i] != '$' {
+			out.WriteByte(in[i])
+			i++
+			continue
+		}
+		j := i + 1
+		braces := j < len(in) && in[j] == '{'
+		if braces {
+			j++
+		}
+		start := j
+		for j < len(in) && (in[j] == '_' || in[j] >= '0' && in[j] <= '9' || in[j] >= 'a' && in[j] <= 'z' || in[j] >= 'A' && in[j] <= 'Z') {
+			j++
+		}
+		name := in[start:j]
+		if braces {
+			if j < len(in) && in[j] == '}' {
+				j++
+			} else {
+				name = ""
+			}
+		}
+		if val, ok := expandVars(name); ok {
+			out.WriteString(val)
+			i = j
+			continue
+		}
+		out.WriteByte('$')
+		i++
+	}
+	return out.String()
+}
+
+func expandVars(in string) (out string, ok bool) {
 	switch in {
 	case "HOST":
 		hostname, _ := os.Hostname()
 		// in case hostname is an fqdn or has dots, only take first part
 		parts := strings.SplitN(hostname, ".", 2)
-		return parts[0]
+		return parts[0], true
 	case "GRAFANA_NET_ADDR":
-		return os.Getenv("GRAFANA_NET_ADDR")
+		return os.Getenv("GRAFANA_NET_ADDR"), true
 	case "GRAFANA_NET_API_KEY":
-		return os.Getenv("GRAFANA_NET_API_KEY")
+		return os.Getenv("GRAFANA_NET_API_KEY"), true
 	case "GRAFANA_NET_USER_ID":
-		return os.Getenv("GRAFANA_NET_USER_ID")
+		return os.Getenv("GRAFANA_NET_USER_ID"), true
 	default:
-		return "$" + in
+		return "", false
 	}
 }
 
